@@ -192,7 +192,13 @@ class VLoop(asyncio.BaseEventLoop):
         self.run_ready()
         return None
 
+    def live_requests(self):
+        """Connect attempts that are still waiting for an answer (attempts abandoned by a timeout are dropped)."""
+        self.conn_requests = [r for r in self.conn_requests if not r[0].done()]
+        return self.conn_requests
+
     def answer_connection(self, how="ok", index=0):
+        self.live_requests()
         fut, factory, kind, args = self.conn_requests.pop(index)
         if fut.cancelled() or fut.done():
             self.run_ready()
